@@ -363,6 +363,9 @@ func (g *Gen) loopEntryEdges(li *loopInfo, edges []inEdge) {
 		t := g.specBool(env, c.E)
 		g.obligeNamed(fmt.Sprintf("%s#%s.entry", g.unit, c.Name), "inv.entry", t, pos, "loop invariant holds on entry: "+c.Text, c.Props)
 	}
+	if g.cutHook != nil {
+		g.cutHook() // unrolled loop with cut points: from here on the lines belong to the new iteration
+	}
 	// 2. havoc
 	li.preHeap = copyMap(g.heap)
 	objs, regions, allocs, ok, why := g.loopWrites(li)
